@@ -19,7 +19,7 @@ struct crypto_aes_key;
 extern const struct crypto_aes_key * g_aes_key;	/* ghost point: key (identity of the expanded key object) */
 extern uint8_t g_aes_X[16];			/* ghost point: input block */
 extern uint8_t g_aes_Y[16];			/* E(g_aes_key, g_aes_X) */
-extern size_t g_i;				/* G1 ghost byte index inside one call's buffer */
+extern size_t g_i;				/* G1 ghost byte index inside the current public call's buffers */
 /*
  * Ghost arguments naming the buffers of the current public stream call.  The helper contracts talk about memory
  * through these (g_ctr_out[offset]) instead of through the advancing cursor pointers: a cursor that was havocked
@@ -28,6 +28,7 @@ extern size_t g_i;				/* G1 ghost byte index inside one call's buffer */
  */
 extern const uint8_t * g_ctr_in;
 extern uint8_t * g_ctr_out;
+extern size_t g_ctr_len;			/* ghost argument: length of the current public call */
 
 #ifdef C02_GHOST_DEFINE
 const struct crypto_aes_key * g_aes_key;
@@ -36,6 +37,7 @@ uint8_t g_aes_Y[16];
 size_t g_i;
 const uint8_t * g_ctr_in;
 uint8_t * g_ctr_out;
+size_t g_ctr_len;
 #endif
 
 #ifndef CTR_MAXLEN
@@ -112,9 +114,10 @@ uint8_t * g_ctr_out;
 	 __CPROVER_POINTER_OFFSET(in) + (n) <= __CPROVER_POINTER_OFFSET(out) || \
 	 __CPROVER_POINTER_OFFSET(out) + (n) <= __CPROVER_POINTER_OFFSET(in)))
 
-/* cursor (inp, outp) lies inside the current call's buffers, both at the same offset */
+/* cursor (inp, outp, remaining) lies inside the current call's buffers: same offset in both, offset + remaining = length */
 #define CTR_OFF(outp) ((size_t)(__CPROVER_POINTER_OFFSET(outp) - __CPROVER_POINTER_OFFSET(g_ctr_out)))
-#define CTR_CURSOR_IN_CALL(inp, outp) ( \
+#define CTR_CURSOR_IN_CALL(inp, outp, remaining) ( \
+	CTR_OFF(outp) <= g_ctr_len && (remaining) == g_ctr_len - CTR_OFF(outp) && \
 	__CPROVER_same_object(inp, g_ctr_in) && __CPROVER_same_object(outp, g_ctr_out) && \
 	__CPROVER_POINTER_OFFSET(inp) >= __CPROVER_POINTER_OFFSET(g_ctr_in) && \
 	__CPROVER_POINTER_OFFSET(outp) >= __CPROVER_POINTER_OFFSET(g_ctr_out) && \
@@ -132,7 +135,7 @@ uint8_t * g_ctr_out;
 	__CPROVER_requires(PRE_OBJ(stream, sizeof(struct crypto_aesctr)) && CTR_INV(stream)) \
 	__CPROVER_requires((buflen) <= CTR_MAXLEN && (stream)->bytectr <= UINT64_MAX - (buflen)) \
 	__CPROVER_requires(CTR_BUFS_OK(inbuf, outbuf, buflen)) \
-	__CPROVER_requires(g_ctr_in == (inbuf) && g_ctr_out == (outbuf)) \
+	__CPROVER_requires(g_ctr_in == (inbuf) && g_ctr_out == (outbuf) && g_ctr_len == (buflen)) \
 	__CPROVER_requires(!__CPROVER_same_object(stream, outbuf) && !__CPROVER_same_object(stream, inbuf)) \
 	__CPROVER_assigns((stream)->bytectr, __CPROVER_object_upto((stream)->buf, 16), \
 	    __CPROVER_object_upto((stream)->pblk + 8, 8), __CPROVER_object_upto(outbuf, buflen)) \
